@@ -84,6 +84,8 @@ type Frame struct {
 	Parent     *Frame
 	envTop     map[string]*Val
 	lemmaPkg   *types.Package
+	atCallHit  map[int]bool
+	midEval    bool
 }
 
 type deferRec struct {
@@ -388,7 +390,7 @@ func (fr *Frame) store(st *State, p *Val, t types.Type, v *Val) {
 // Function execution
 
 func (c *Ctx) newFrame(fn *ssa.Function, depth int) *Frame {
-	return &Frame{C: c, Fn: fn, Regs: map[ssa.Value]*Val{}, Depth: depth, loops: map[*ssa.BasicBlock]*loopInfo{}, Params: map[string]*Val{}}
+	return &Frame{C: c, Fn: fn, Regs: map[ssa.Value]*Val{}, Depth: depth, loops: map[*ssa.BasicBlock]*loopInfo{}, Params: map[string]*Val{}, atCallHit: map[int]bool{}}
 }
 
 func (fr *Frame) findLoops() {
@@ -555,6 +557,8 @@ func rootAlloc(v ssa.Value) *ssa.Alloc {
 
 func (fr *Frame) enterLoop(li *loopInfo, pre *State) *State {
 	c := fr.C
+	fr.midEval = true
+	defer func() { fr.midEval = false }()
 	li.pre = pre
 	name := fmt.Sprintf("L%d", li.ordinal)
 	var invs []Clause
@@ -762,6 +766,8 @@ func clauseName(prefix string, cl Clause, i int) string {
 
 func (fr *Frame) backEdge(li *loopInfo, st *State, pos token.Pos) {
 	c := fr.C
+	fr.midEval = true
+	defer func() { fr.midEval = false }()
 	name := fmt.Sprintf("L%d", li.ordinal)
 	if li.auto != nil {
 		if g := li.auto(st); g != nil {
